@@ -156,10 +156,11 @@ def register(reg):
         bad = [b for b in bad if not b.startswith("werkzeug/datastructures/headers.py")]
         return [("no-foreign-access", not bad, f"accesses to <obj>._list outside Headers: {bad[:5]}")]
 
-    reg.spec("clean(v)", "not ('\\r' in v) and not ('\\n' in v)")
+    # ghost function: opaque under quantifiers (I_h), unfolded at ground uses
+    reg.defn("clean(v)", "not ('\\r' in v) and not ('\\n' in v)", {"v": "str"})
     # the checker itself
     reg.contract(
-        "werkzeug/datastructures/headers.py:_str_header_value", prop=P, replay="pure",
+        "werkzeug/datastructures/headers.py:_str_header_value", modifies=[], prop=P, replay="pure",
         cases=[{"value": "str"}, {"value": "int"}], returns="str",
         ensures=["clean(result)", "implies(isinstance(value, str), result == value)"],
         raises={"ValueError": "isinstance(value, str) and not clean(value)"},
